@@ -167,7 +167,11 @@ pub(crate) fn try_with(f: impl FnOnce(&mut Exec)) {
 
 /// State of the calling loom thread (created on first use).
 pub(crate) fn with_thread<R>(f: impl FnOnce(&mut Exec, usize) -> R) -> R {
-    let id = loom::thread::current().id();
+    with_thread_of(loom::thread::current().id(), f)
+}
+
+/// State of the loom thread `id` (created on first use).
+pub(crate) fn with_thread_of<R>(id: ThreadId, f: impl FnOnce(&mut Exec, usize) -> R) -> R {
     with(|e| {
         let idx = match e.threads.iter().position(|(t, _)| *t == id) {
             Some(i) => i,
